@@ -1025,7 +1025,7 @@ impl StructState {
 }
 
 fn dummy_item() -> Item {
-    Item { id: 0, name: String::new(), form: Form::Word, r_item: crate::input::ZERO, r_path: crate::input::ZERO, r_value: None }
+    Item { id: 0, name: String::new(), form: Form::Word, r_item: crate::input::ZERO, r_path: crate::input::ZERO, r_value: None, delim: 0 }
 }
 
 // ------------------------------------------------------------------------------------------------
